@@ -16,6 +16,9 @@ def register(cls):
 
 
 def make(key, params=None):
+    if key not in REGISTRY:
+        import bsv.scenarios.extra  # noqa: F401 - registers further scenarios
+        import bsv.scenarios.generated  # noqa: F401
     return REGISTRY[key](**(params or {}))
 
 
